@@ -4,16 +4,17 @@
   SPEC: `mirror op := reverse ∘ op_msb0 ∘ reverse` on the bit operands, same position arguments.  Every
         operation below takes the bit-numbering mode as a parameter exactly where the code consults the
         rebound methods, so "the msb0 operation" is the same function at `Mode.msb0`.
-  ALG : bitstore.py `indices` (10-19), `offset_slice_indices_lsb0` (21-38), `BitStore.*_msb0/*_lsb0` (209-292),
-        bits.py `_validate_slice` (1143), `_find_lsb0/_find_msb0` (1256-1274), `_findall_msb0/_findall_lsb0`
-        (1298-1342, the reverse chunk scan), `_rfind_msb0/_rfind_lsb0` (1369-1386), `cut` (1388), `startswith`,
-        `endswith` (1515-1538), `all/any` (1540-1573), `_slice/_absolute_slice/_insert/_overwrite/_delete/
-        _reversebytes/_invert/_ilshift/_irshift/_truncateleft/right` (1008-1120), `__lshift__/__rshift__` (330-363);
-        bitarray_.py `_setitem_int/_setitem_slice/__delitem__` (156-215), `_replace/replace` (268-335),
-        `insert/overwrite/append/prepend/_append_msb0/_append_lsb0` (337-397), `reverse` (399-416), `set` (418-440),
-        `invert` (442-463), `ror/_ror_msb0/rol/_rol_msb0` (465-515), `byteswap` (517-577);
-        bitstream.py `read/peek/readlist` (329-440), bits.py `unpack/_read_dtype_list` (1151-1222),
-        methods.py `pack` (token list reversal, 86-93); bitstring_options.py `set_lsb0` (44-69, the two tables).
+  ALG (line numbers of /repo at c59055f): bitstore.py `offset_slice_indices_lsb0` (21-35), `BitStore.find/rfind/
+        findall_msb0` (136-180), `*_msb0/*_lsb0` accessors and mutators (209-292); bits.py `__lshift__/__rshift__`
+        (337-365), `_slice/_absolute_slice` (1046-1061), `_truncateleft/right/_insert/_overwrite/_delete/_reversebytes/
+        _invert/_ilshift/_irshift` (1089-1161), `_validate_slice` (1180), `unpack/_read_dtype_list` (1188-1262),
+        `find/_find_lsb0/_find_msb0` (1264-1311), `findall/_findall_msb0/_findall_lsb0` (1313-1375, the reverse chunk
+        scan), `rfind/_rfind_msb0/_rfind_lsb0` (1377-1420), `cut` (1422), `startswith/endswith` (1554-1576), `all/any`
+        (1578-1610); bitarray_.py `_setitem_int/_setitem_slice/__delitem__` (163-220), `_replace/replace` (278-341),
+        `insert/overwrite/append/prepend/_append_msb0/_append_lsb0` (343-404), `reverse` (406-424), `set` (426-455),
+        `invert` (457-478), `ror/_ror_msb0/rol/_rol_msb0` (480-532), `byteswap` (534-596); bitstream.py `read/readlist/
+        peek` (265-400); methods.py `pack` (token list reversal, 86-93); bitstring_options.py `set_lsb0` (46-73, the
+        two method tables).
   bitarray's own slicing / searching is modelled by its Python-list meaning (`Py.*` in Model/Basic.lean and the
   `py*` / `search` primitives below).
 -/
@@ -115,7 +116,7 @@ def matchAt (l t : Bits) (p : Nat) : Bool := (l.drop p).take t.length == t
 
 /-! ## bitstore.py: the index arithmetic -/
 
-/-- `offset_slice_indices_lsb0(key, length)` (bitstore.py:21-35), line by line: the slice that visits, in stored
+/-- `offset_slice_indices_lsb0(key, length)`, line by line: the slice that visits, in stored
     order, the mirror images of the positions `key` visits.  `key.indices` raises ValueError for a zero step. -/
 def offsetSliceLsb0 (k : Key) (n : Nat) : Except Err Key :=
   let st := k.step.getD 1
@@ -136,7 +137,7 @@ def offsetSliceLsb0 (k : Key) (n : Nat) : Except Err Key :=
 
 /-! ## BitStore accessors and mutators, by mode (the attributes rebound by `set_lsb0`) -/
 
-/-- `BitStore.getslice_withstep` (bitstore.py:215/218). -/
+/-- `BitStore.getslice_withstep`. -/
 def getsliceWithstep (m : Mode) (l : Bits) (k : Key) : Except Err Bits :=
   match m with
   | .msb0 => pyGet l k
@@ -144,10 +145,10 @@ def getsliceWithstep (m : Mode) (l : Bits) (k : Key) : Except Err Bits :=
     | .error e => .error e
     | .ok k' => pyGet l k'
 
-/-- `BitStore.getslice_msb0(start, stop)` (bitstore.py:222): `self._bitarray[start:stop]`. -/
+/-- `BitStore.getslice_msb0(start, stop)`: `self._bitarray[start:stop]`. -/
 def getsliceMsb0 (l : Bits) (start stop : Option Int) : Bits := sliceStep1 l start stop
 
-/-- `BitStore.getslice` (bitstore.py:222/229). -/
+/-- `BitStore.getslice`. -/
 def getslice (m : Mode) (l : Bits) (start stop : Option Int) : Except Err Bits :=
   match m with
   | .msb0 => .ok (getsliceMsb0 l start stop)
@@ -155,13 +156,13 @@ def getslice (m : Mode) (l : Bits) (start stop : Option Int) : Except Err Bits :
     | .error e => .error e
     | .ok k' => .ok (sliceStep1 l k'.start k'.stop)
 
-/-- `BitStore.getindex` (bitstore.py:212/233). -/
+/-- `BitStore.getindex`. -/
 def getindex (m : Mode) (l : Bits) (i : Int) : Except Err Bool :=
   match m with
   | .msb0 => pyGetIdx l i
   | .lsb0 => pyGetIdx l (-i - 1)
 
-/-- `BitStore.__setitem__(slice, BitStore)` (bitstore.py:244/281). -/
+/-- `BitStore.__setitem__(slice, BitStore)`. -/
 def setitemSlice (m : Mode) (l : Bits) (k : Key) (v : Bits) : Except Err Bits :=
   match m with
   | .msb0 => pySet l k v
@@ -183,7 +184,7 @@ def setitemIdx (m : Mode) (l : Bits) (i : Int) (b : Bool) : Except Err Bits :=
   | .msb0 => pySetIdx l i b
   | .lsb0 => pySetIdx l (-i - 1) b
 
-/-- `BitStore.__delitem__` (bitstore.py:251/291). -/
+/-- `BitStore.__delitem__`. -/
 def delitemSlice (m : Mode) (l : Bits) (k : Key) : Except Err Bits :=
   match m with
   | .msb0 => pyDel l k
@@ -196,7 +197,7 @@ def delitemIdx (m : Mode) (l : Bits) (i : Int) : Except Err Bits :=
   | .msb0 => pyDelIdx l i
   | .lsb0 => pyDelIdx l (-i - 1)
 
-/-- `BitStore.invert(index)` (bitstore.py:258/264). -/
+/-- `BitStore.invert(index)`. -/
 def invertIdx (m : Mode) (l : Bits) (i : Int) : Except Err Bits :=
   match m with
   | .msb0 => pyInvertIdx l i
@@ -204,13 +205,13 @@ def invertIdx (m : Mode) (l : Bits) (i : Int) : Except Err Bits :=
 
 /-! ## Bits / BitArray internals -/
 
-/-- `_validate_slice` (bits.py:1143). -/
+/-- `_validate_slice`. -/
 def validateSlice (n : Nat) (start stop : Option Int) : Except Err (Nat × Nat) :=
   let s : Int := match start with | none => 0 | some x => if x < 0 then x + n else x
   let e : Int := match stop with | none => n | some x => if x < 0 then x + n else x
   if 0 ≤ s ∧ s ≤ e ∧ e ≤ n then .ok (s.toNat, e.toNat) else .error .value
 
-/-- `_slice(start, end)` (bits.py:1008). -/
+/-- `_slice(start, end)`. -/
 def slice_ (m : Mode) (l : Bits) (a b : Int) : Except Err Bits := getslice m l (some a) (some b)
 
 /-- `_insert(bs, pos)`: `self._bitstore[pos:pos] = bs`. -/
@@ -232,7 +233,7 @@ def getItem (m : Mode) (l : Bits) (i : Int) : Except Err Bool := getindex m l i
 /-- `Bits.__getitem__(slice)`. -/
 def getSliceOp (m : Mode) (l : Bits) (k : Key) : Except Err Bits := getsliceWithstep m l k
 
-/-- `BitArray._setitem_int` with an integer value (bitarray_.py:156). -/
+/-- `BitArray._setitem_int` with an integer value. -/
 def setItemInt (m : Mode) (l : Bits) (i : Int) (v : Int) : Except Err Bits :=
   if v = 0 then setitemIdx m l i false
   else if v = 1 ∨ v = -1 then setitemIdx m l i true
@@ -247,7 +248,7 @@ def setItemBits (m : Mode) (l : Bits) (i : Int) (v : Bits) : Except Err Bits :=
 /-- `BitArray._setitem_slice` with a bitstring value. -/
 def setSliceBits (m : Mode) (l : Bits) (k : Key) (v : Bits) : Except Err Bits := setitemSlice m l k v
 
-/-- `BitArray.set(value, pos)` (bitarray_.py:418); `pos` as in the wire format. -/
+/-- `BitArray.set(value, pos)`; `pos` as in the wire format. -/
 inductive PosSpec where
   | all
   | one (i : Int)
@@ -279,7 +280,7 @@ def setOp (m : Mode) (l : Bits) (b : Bool) : PosSpec → Except Err Bits
       else setMany m b l idx
     | _, _ => setMany m b l idx
 
-/-- `BitArray._setitem_slice` with an integer value (bitarray_.py:173). -/
+/-- `BitArray._setitem_slice` with an integer value. -/
 def setSliceInt (m : Mode) (l : Bits) (k : Key) (v : Int) : Except Err Bits :=
   if k.step ≠ none ∧ k.step ≠ some (-1) ∧ k.step ≠ some 1 then
     if v = 0 ∨ v = 1 then
@@ -312,7 +313,7 @@ def invertMany (m : Mode) : Bits → List Int → Except Err Bits
     | .error e => .error e
     | .ok l' => invertMany m l' ps
 
-/-- `BitArray.invert(pos)` (bitarray_.py:442). -/
+/-- `BitArray.invert(pos)`. -/
 def invertOp (m : Mode) (l : Bits) : PosSpec → Except Err Bits
   | .all => .ok (l.map not)
   | .one i => invertMany m l [i]
@@ -352,7 +353,7 @@ def anyOp (m : Mode) (l : Bits) (b : Bool) (P : PosSpec) : Except Err Bool :=
 
 /-! ### searching -/
 
-/-- `BitStore.findall_msb0` (bitstore.py:152): whole-byte special case, else `search` (+ `p % 8` filter). -/
+/-- `BitStore.findall_msb0`: whole-byte special case, else `search` (+ `p % 8` filter). -/
 def findallMsb0Store (l t : Bits) (a b : Nat) (ba : Bool) : List Nat :=
   if ba ∧ t.length % 8 = 0 then
     let startByte := (a + 7) / 8
@@ -361,15 +362,15 @@ def findallMsb0Store (l t : Bits) (a b : Nat) (ba : Bool) : List Nat :=
   else if ba then (search l t a b).filter (· % 8 = 0)
   else search l t a b
 
-/-- `BitStore.find` (bitstore.py:136): `-1` is `none`. -/
+/-- `BitStore.find`: `-1` is `none`. -/
 def findStore (l t : Bits) (a b : Nat) (ba : Bool) : Option Nat :=
   if ¬ ba then (search l t a b).head? else (findallMsb0Store l t a b true).head?
 
-/-- `BitStore.rfind` (bitstore.py:144): `find(right=True)` / first of `rfindall_msb0`. -/
+/-- `BitStore.rfind`: `find(right=True)` / first of `rfindall_msb0`. -/
 def rfindStore (l t : Bits) (a b : Nat) (ba : Bool) : Option Nat :=
   if ¬ ba then (search l t a b).getLast? else ((search l t a b).filter (· % 8 = 0)).getLast?
 
-/-- `Bits._findall_msb0` (bits.py:1298): at most `count` of them. -/
+/-- `Bits._findall_msb0`: at most `count` of them. -/
 def findallMsb0 (l t : Bits) (a b : Nat) (count : Option Nat) (ba : Bool) : List Nat :=
   match count with
   | none => findallMsb0Store l t a b ba
@@ -382,7 +383,7 @@ def msb0Window (n : Nat) (a b : Nat) : Except Err (Nat × Nat) :=
   | .error e => .error e
   | .ok k => validateSlice n k.start k.stop
 
-/-- `Bits._find` (bits.py:1256/1271) for validated `start ≤ end`. -/
+/-- `Bits._find` for validated `start ≤ end`. -/
 def find_ (m : Mode) (l t : Bits) (a b : Nat) (ba : Bool) : Except Err (Option Nat) :=
   match m with
   | .msb0 => .ok (findStore l t a b ba)
@@ -390,7 +391,7 @@ def find_ (m : Mode) (l t : Bits) (a b : Nat) (ba : Bool) : Except Err (Option N
     | .error e => .error e
     | .ok (s, e) => .ok ((rfindStore l t s e ba).map fun p => l.length - p - t.length)
 
-/-- `Bits._rfind` (bits.py:1369/1374). -/
+/-- `Bits._rfind`. -/
 def rfind_ (m : Mode) (l t : Bits) (a b : Nat) (ba : Bool) : Except Err (Option Nat) :=
   match m with
   | .msb0 => .ok (rfindStore l t a b ba)
@@ -398,7 +399,7 @@ def rfind_ (m : Mode) (l t : Bits) (a b : Nat) (ba : Bool) : Except Err (Option 
     | .error e => .error e
     | .ok (s, e) => .ok ((findStore l t s e ba).map fun p => l.length - p - t.length)
 
-/-- inner `while found:` loop of `_findall_lsb0` (bits.py:1366-1372): pops from the end; a position is counted
+/-- inner `while found:` loop of `_findall_lsb0`: pops from the end; a position is counted
     only when it passes the alignment filter.  Returns the positions yielded, the new counter and whether the
     generator returned. -/
 def drainFound (n tl : Nat) (count : Option Nat) (ba : Bool) : List Nat → Nat → List Nat × Nat × Bool
@@ -412,7 +413,7 @@ def drainFound (n tl : Nat) (count : Option Nat) (ba : Bool) : List Nat → Nat 
         (q :: r.1, r.2.1, r.2.2)
     else drainFound n tl count ba rest c
 
-/-- The `while True:` loop of `_findall_lsb0` (bits.py:1363-1375), `fuel` bounding the number of chunks: every
+/-- The `while True:` loop of `_findall_lsb0`, `fuel` bounding the number of chunks: every
     chunk `[pos, chunk_end)` ends `len(bs) - 1` bits after the start of the previous one, and the chunk at
     `msb0_start` is always searched. -/
 def findallLsb0Loop (inc : Nat) (l t : Bits) (s0 : Nat) (count : Option Nat) (ba : Bool) :
@@ -443,20 +444,20 @@ def countNeg : Option Int → Bool
   | some c => decide (c < 0)
   | none => false
 
-/-- `Bits.find` (bits.py:1224). -/
+/-- `Bits.find`. -/
 def findOp (m : Mode) (l t : Bits) (start stop : Option Int) (ba : Bool) : Except Err (Option Nat) :=
   if t.length = 0 then .error .value else
   match validateSlice l.length start stop with
   | .error e => .error e
   | .ok (a, b) => find_ m l t a b ba
 
-/-- `Bits.rfind` (bits.py:1344). -/
+/-- `Bits.rfind`. -/
 def rfindOp (m : Mode) (l t : Bits) (start stop : Option Int) (ba : Bool) : Except Err (Option Nat) :=
   match validateSlice l.length start stop with
   | .error e => .error e
   | .ok (a, b) => if t.length = 0 then .error .value else rfind_ m l t a b ba
 
-/-- `Bits.findall` (bits.py:1276). -/
+/-- `Bits.findall`. -/
 def findallOp (m : Mode) (l t : Bits) (start stop : Option Int) (count : Option Int) (ba : Bool) :
     Except Err (List Nat) :=
   if countNeg count then .error .value else
@@ -465,7 +466,7 @@ def findallOp (m : Mode) (l t : Bits) (start stop : Option Int) (count : Option 
   | .error e => .error e
   | .ok (a, b) => findall_ m l t a b (count.map Int.toNat) ba
 
-/-- `Bits.startswith` (bits.py:1515). -/
+/-- `Bits.startswith`. -/
 def startswithOp (m : Mode) (l t : Bits) (start stop : Option Int) : Except Err Bool :=
   match validateSlice l.length start stop with
   | .error e => .error e
@@ -476,7 +477,7 @@ def startswithOp (m : Mode) (l t : Bits) (start stop : Option Int) : Except Err 
       | .ok s => .ok (s == t)
     else .ok false
 
-/-- `Bits.endswith` (bits.py:1528). -/
+/-- `Bits.endswith`. -/
 def endswithOp (m : Mode) (l t : Bits) (start stop : Option Int) : Except Err Bool :=
   match validateSlice l.length start stop with
   | .error e => .error e
@@ -501,7 +502,7 @@ def cutLoop (m : Mode) (l : Bits) (bits : Nat) (e : Nat) (count : Option Nat) : 
       | .error err => .error err
       | .ok rest => .ok (chunk :: rest)
 
-/-- `Bits.cut` (bits.py:1388), the generator run to its end. -/
+/-- `Bits.cut`, the generator run to its end. -/
 def cutOp (m : Mode) (l : Bits) (bits : Int) (start stop : Option Int) (count : Option Int) : Except Err (List Bits) :=
   match validateSlice l.length start stop with
   | .error e => .error e
@@ -530,7 +531,7 @@ def middlePieces (m : Mode) (l new : Bits) (oldLen : Nat) : List Nat → Except 
     | _, .error e => .error e
   | _ => .ok []
 
-/-- `BitArray._replace` (bitarray_.py:268). -/
+/-- `BitArray._replace`. -/
 def replace_ (m : Mode) (l old new : Bits) (a b : Nat) (count : Nat) (ba : Bool) : Except Err (Nat × Bits) :=
   match findall_ m l old a b none ba with
   | .error e => .error e
@@ -549,7 +550,7 @@ def replace_ (m : Mode) (l old new : Bits) (a b : Nat) (count : Nat) (ba : Bool)
       | _, .error e, _ => .error e
       | _, _, .error e => .error e
 
-/-- `BitArray.replace` (bitarray_.py:304). -/
+/-- `BitArray.replace`. -/
 def replaceOp (m : Mode) (l old new : Bits) (start stop : Option Int) (count : Option Int) (ba : Bool) :
     Except Err (Nat × Bits) :=
   if old.length = 0 then .error .value else
@@ -563,19 +564,19 @@ def replaceOp (m : Mode) (l old new : Bits) (start stop : Option Int) (count : O
 
 /-! ### insert, overwrite, append, prepend, reverse, byteswap, rotations -/
 
-/-- `BitArray.insert` (bitarray_.py:337). -/
+/-- `BitArray.insert`. -/
 def insertOp (m : Mode) (l v : Bits) (pos : Int) : Except Err Bits :=
   let p := if pos < 0 then pos + l.length else pos
   if ¬ (0 ≤ p ∧ p ≤ l.length) then .error .value else
   if v.length = 0 then .ok l else insert_ m l v p
 
-/-- `BitArray.overwrite` (bitarray_.py:356). -/
+/-- `BitArray.overwrite`. -/
 def overwriteOp (m : Mode) (l v : Bits) (pos : Int) : Except Err Bits :=
   let p := if pos < 0 then pos + l.length else pos
   if p < 0 ∨ p > l.length then .error .value else
   if v.length = 0 then .ok l else overwrite_ m l v p
 
-/-- `_append_msb0` = `_addright`, `_append_lsb0` = `_addleft` (bitarray_.py:390-395). -/
+/-- `_append_msb0` = `_addright`, `_append_lsb0` = `_addleft`. -/
 def appendMsb0 (l v : Bits) : Bits := l ++ v
 def appendLsb0 (l v : Bits) : Bits := v ++ l
 
@@ -584,7 +585,7 @@ def appendOp (m : Mode) (l v : Bits) : Bits := match m with | .msb0 => appendMsb
 /-- `BitArray.prepend` → `self._prepend`, bound to `_append_lsb0` / `_append_msb0`. -/
 def prependOp (m : Mode) (l v : Bits) : Bits := match m with | .msb0 => appendLsb0 l v | .lsb0 => appendMsb0 l v
 
-/-- `BitArray.reverse` (bitarray_.py:399). -/
+/-- `BitArray.reverse`. -/
 def reverseOp (m : Mode) (l : Bits) (start stop : Option Int) : Except Err Bits :=
   match validateSlice l.length start stop with
   | .error e => .error e
@@ -603,7 +604,7 @@ def reverseBytesOf (x : Bits) : Bits :=
   let padded := x ++ List.replicate ((8 - x.length % 8) % 8) false
   (byteGroups (padded.length + 1) padded).reverse.flatten
 
-/-- `_reversebytes(start, end)` (bits.py:1097). -/
+/-- `_reversebytes(start, end)`. -/
 def reversebytes_ (m : Mode) (l : Bits) (a b : Int) : Except Err Bits :=
   match getslice m l (some a) (some b) with
   | .error e => .error e
@@ -625,7 +626,7 @@ def byteswapLoop (m : Mode) (sizes : List Nat) (total : Nat) : Nat → Bits → 
     | .error e => .error e
     | .ok l' => byteswapLoop m sizes total k l' (patternend + total) (reps + 1)
 
-/-- `BitArray.byteswap` (bitarray_.py:517) for `fmt` None/0, an int or a list of ints. -/
+/-- `BitArray.byteswap` for `fmt` None/0, an int or a list of ints. -/
 def byteswapOp (m : Mode) (l : Bits) (fmt : Option (List Int)) (start stop : Option Int) (repeat_ : Bool) :
     Except Err (Nat × Bits) :=
   match validateSlice l.length start stop with
@@ -645,7 +646,7 @@ def byteswapOp (m : Mode) (l : Bits) (fmt : Option (List Int)) (start stop : Opt
       | .error e => .error e
       | .ok (l', reps) => .ok (reps, l')
 
-/-- `_rol_msb0` (bitarray_.py:505): the body is written with `_slice/_delete/_insert`, which follow the mode. -/
+/-- `_rol_msb0`: the body is written with `_slice/_delete/_insert`, which follow the mode. -/
 def rolBody (m : Mode) (l : Bits) (bits : Nat) (start stop : Option Int) : Except Err Bits :=
   match validateSlice l.length start stop with
   | .error e => .error e
@@ -659,7 +660,7 @@ def rolBody (m : Mode) (l : Bits) (bits : Nat) (start stop : Option Int) : Excep
       | .error e => .error e
       | .ok l1 => insert_ m l1 lhs ((b : Int) - k)
 
-/-- `_ror_msb0` (bitarray_.py:480). -/
+/-- `_ror_msb0`. -/
 def rorBody (m : Mode) (l : Bits) (bits : Nat) (start stop : Option Int) : Except Err Bits :=
   match validateSlice l.length start stop with
   | .error e => .error e
@@ -690,18 +691,18 @@ def rorOp (m : Mode) (l : Bits) (bits : Int) (start stop : Option Int) : Except 
 
 /-! ### shifts: written with `_absolute_slice` / `getslice_msb0`, the mode is never consulted -/
 
-/-- `_absolute_slice(start, end)` (bits.py:1014) for `start ≤ end`. -/
+/-- `_absolute_slice(start, end)` for `start ≤ end`. -/
 def absoluteSlice (l : Bits) (a b : Nat) : Bits :=
   if b = a then [] else getsliceMsb0 l (some (a : Int)) (some (b : Int))
 
-/-- `Bits.__lshift__` (bits.py:330). -/
+/-- `Bits.__lshift__`. -/
 def shlOp (_m : Mode) (l : Bits) (n : Int) : Except Err Bits :=
   if n < 0 then .error .value else
   if l.length = 0 then .error .value else
   let k := min n.toNat l.length
   .ok (absoluteSlice l k l.length ++ List.replicate k false)
 
-/-- `Bits.__rshift__` (bits.py:347). -/
+/-- `Bits.__rshift__`. -/
 def shrOp (_m : Mode) (l : Bits) (n : Int) : Except Err Bits :=
   if n < 0 then .error .value else
   if l.length = 0 then .error .value else
@@ -734,12 +735,12 @@ inductive Tok where
   | n | b | u | i
   deriving DecidableEq, Repr
 
-/-- `dtype.read_fn(bs, start)` for a fixed-length dtype: `get_fn(bs[start:start+length])` (dtypes.py:297). -/
+/-- `dtype.read_fn(bs, start)` for a fixed-length dtype: `get_fn(bs[start:start+length])`. -/
 def readFn (m : Mode) (l : Bits) (pos : Nat) (k : Nat) : Except Err Bits :=
   if l.length < pos + k then .error .read
   else getsliceWithstep m l ⟨some (pos : Int), some ((pos : Int) + k), none⟩
 
-/-- `ConstBitStream.read` (bitstream.py:329): the bits read and the new position. -/
+/-- `ConstBitStream.read`: the bits read and the new position. -/
 def readOp (m : Mode) (l : Bits) (pos : Nat) (tk : Tok) (k : Nat) : Except Err (Bits × Nat) :=
   match tk with
   | .n =>
@@ -753,7 +754,7 @@ def readOp (m : Mode) (l : Bits) (pos : Nat) (tk : Tok) (k : Nat) : Except Err (
     | .error e => .error e
     | .ok s => if pos + k > l.length then .error .read else .ok (s, pos + k)
 
-/-- `_read_dtype_list` (bits.py:1184) for fixed-length tokens. -/
+/-- `_read_dtype_list` for fixed-length tokens. -/
 def readList (m : Mode) (l : Bits) : Nat → List (Tok × Nat) → Except Err (List (Tok × Bits) × Nat)
   | pos, [] => .ok ([], pos)
   | pos, (tk, k) :: rest =>
@@ -764,7 +765,7 @@ def readList (m : Mode) (l : Bits) : Nat → List (Tok × Nat) → Except Err (L
       | .error e => .error e
       | .ok (vs, p) => .ok ((tk, s) :: vs, p)
 
-/-- `pack` (methods.py:86): the token bitstores are joined, in reverse order under lsb0. -/
+/-- `pack`: the token bitstores are joined, in reverse order under lsb0. -/
 def packOp (m : Mode) (toks : List Bits) : Bits :=
   (match m with | .msb0 => toks | .lsb0 => toks.reverse).flatten
 
@@ -774,7 +775,7 @@ def wholeBits (m : Mode) (l : Bits) : Except Err Bits := getslice m l none none
 def uintOf (m : Mode) (l : Bits) : Except Err Nat := (wholeBits m l).map bitsToNat
 def intOf (m : Mode) (l : Bits) : Except Err Int := (wholeBits m l).map bitsToInt
 
-/-! ## Options.set_lsb0: the two method tables (bitstring_options.py:49-65) -/
+/-! ## Options.set_lsb0: the two method tables (bitstring_options.py:54-69) -/
 
 /-- (class, attribute, class of the bound function, name of the bound function) -/
 abbrev Binding := String × String × String × String
